@@ -52,3 +52,7 @@ impl Comment {
         buf.add_one("*/\n", "*/");
     }
 }
+
+#[cfg(kani)]
+#[path = "/verif/kani/comment.rs"]
+mod kani_verif;
